@@ -62,97 +62,7 @@ def console_obligations(chk, repo):
                       model=None if ok else {"printed": found.get(lab)})
 
 
-# ----------------------------------------------------------------------------- non-interference of the SHIPPED listeners
-_ALLOC = {"zeros", "ones", "empty", "array", "copy", "deepcopy", "list", "dict", "set", "tuple", "linspace", "arange", "meshgrid",
-          "ndarray", "full", "zeros_like", "ones_like", "empty_like", "FunctionValue", "Point", "str", "int", "float", "format",
-          "join", "figure", "subplots", "sorted", "range", "len", "min", "max", "sum", "abs", "round", "double", "float64"}
-_MUT = {"append", "extend", "insert", "pop", "remove", "clear", "update", "setdefault", "sort", "reverse", "fill", "resize", "put",
-        "itemset"}
-
-
-def _root(t):
-    while isinstance(t, (ast.Attribute, ast.Subscript)):
-        t = t.value
-    return t
-
-
-def _fresh_value(v, fresh):
-    if isinstance(v, (ast.Constant, ast.List, ast.ListComp, ast.Dict, ast.DictComp, ast.Tuple, ast.BinOp, ast.UnaryOp, ast.Compare,
-                      ast.BoolOp, ast.JoinedStr, ast.Set, ast.SetComp, ast.GeneratorExp)):
-        return True
-    if isinstance(v, ast.Name):
-        return v.id in fresh
-    if isinstance(v, ast.Call):
-        f = v.func
-        return (f.attr if isinstance(f, ast.Attribute) else getattr(f, "id", "")) in _ALLOC
-    if isinstance(v, ast.IfExp):
-        return _fresh_value(v.body, fresh) and _fresh_value(v.orelse, fresh)
-    return False
-
-
-def _listener_writes(fn):
-    """stores / mutating calls of one function whose target is neither `self`, the matplotlib configuration, nor an object the
-    function allocated itself (flow-insensitive for freshness: a name is fresh after an assignment from an allocation and
-    stops being fresh after any other assignment)"""
-    fresh, bad = set(), []
-
-    class V(ast.NodeVisitor):
-        def visit_Assign(s, n):
-            for t in n.targets:
-                s.store(t, n.value, n.lineno)
-            s.generic_visit(n)
-
-        def visit_AugAssign(s, n):
-            s.store(n.target, None, n.lineno, aug=True)
-            s.generic_visit(n)
-
-        def visit_For(s, n):
-            if isinstance(n.target, ast.Name):
-                fresh.discard(n.target.id)
-            s.generic_visit(n)
-
-        def store(s, t, val, line, aug=False):
-            if isinstance(t, ast.Name):
-                if not aug:
-                    (fresh.add if (val is not None and _fresh_value(val, fresh)) else fresh.discard)(t.id)
-                return
-            if isinstance(t, (ast.Tuple, ast.List)):
-                for e in t.elts:
-                    s.store(e, None, line)
-                return
-            r = _root(t)
-            if isinstance(r, ast.Name) and (r.id in ("self", "plt") or r.id in fresh):
-                return
-            bad.append("line %d: store %s" % (line, ast.unparse(t)[:70]))
-
-        def visit_Call(s, n):
-            f = n.func
-            if isinstance(f, ast.Attribute) and f.attr in _MUT:
-                r = _root(f.value)
-                if not (isinstance(r, ast.Name) and (r.id in ("self", "plt", "np", "matplotlib") or r.id in fresh)):
-                    bad.append("line %d: mutating call %s" % (n.lineno, ast.unparse(f)[:70]))
-            s.generic_visit(n)
-    V().visit(fn)
-    return bad
-
-
-def shipped_listener_frames(chk, repo):
-    """C13 'attaching the shipped console and painting listeners changes neither the trial sequence nor the result': the frame
-    of every function of the output system (listeners, painters, console outputers) excludes everything it is handed -
-    it may write its own fields, matplotlib's configuration and objects it allocates"""
-    for rel, mi in sorted(repo.modules.items()):
-        if not (rel.startswith("iOpt/output_system/") or rel == "iOpt/method/listener.py"):
-            continue
-        bad = []
-        for cn, ci in mi.classes.items():
-            for mn, fn in ci.methods.items():
-                bad += ["%s.%s %s" % (cn, mn, b) for b in _listener_writes(fn)]
-        for fnn, fn in mi.functions.items():
-            bad += ["%s %s" % (fnn, b) for b in _listener_writes(fn)]
-        chk.add_lemma("frame:shipped-listeners:%s" % rel, "proved" if not bad else "refuted", "effect-analysis", 0.0,
-                      clause="no function of %s writes an object it was handed (solution, search data, trial points) or "
-                             "anything derived from one: only its own fields, matplotlib configuration and objects it "
-                             "allocates" % rel, func=rel, model=None if not bad else {"sites": bad[:8]})
+from .solver_common import shipped_listener_frames
 
 
 def run(tier, seed):
